@@ -37,7 +37,7 @@ def _cnf_post(shape):
         syms = sc.collect_symbols(w, nodes)
         orig = sc.collect_symbols(w, [f])
         fresh = sorted(set(syms) - set(orig))
-        if len(fresh) > 10:
+        if len(fresh) > 12:
             return proc.ProcResult(shape, "unsupported", "%d fresh symbols" % len(fresh))
         n = 0
         for asg in sc.assignments(w, [f], facts):
